@@ -309,10 +309,10 @@ theorem C13_two_phase (opts : Dict α) (cd : Option (Dict α)) (r : ScState α) 
     | error e => simp [bind, Except.bind]
     | ok iso =>
       cases h3 : alterOptions iso opts failRules with
-      | error e => simp [bind, Except.bind]
+      | error e => simp [bind, Except.bind, h3]
       | ok copy =>
-        simp only [bind, Except.bind]
-        rw [execItems_two_phase]
+        simp only [bind, Except.bind, h3]
+        rw [execItems_two_phase copy cd dispatch ScState.init r]
         constructor
         · rintro ⟨p, hp, he⟩
           exact ⟨copy, p, by simp [hp, pure, Except.pure], he⟩
@@ -374,15 +374,16 @@ theorem C13_head_override_name :
 /-- the same for every present or future species: any column name ending in `_head` -/
 theorem C13_head_override_name_general (p : String) :
     loaderColumn (p ++ "_head" ++ "_start") = some (p ++ "_head") := by
-  have h1 : loaderNeedle = "_head" ++ "_start" := by decide +kernel
+  have h1 : loaderNeedle = "_head_start" := by decide +kernel
   have h2 : (loaderFunction == "removesuffix") = true := by decide +kernel
   have h3 : loaderArg = "_start" := by decide +kernel
+  have hl : ("_head" ++ "_start" : String) = "_head_start" := by decide +kernel
+  have e : p ++ "_head" ++ "_start" = p ++ "_head_start" ++ "" := by
+    rw [String.append_assoc, hl, String.append_empty]
+  have hs : hasSub (p ++ "_head" ++ "_start") "_head_start" = true := by
+    rw [e]; exact hasSub_append p "_head_start" ""
   unfold loaderColumn
-  rw [h1, h2, h3]
-  have : hasSub (p ++ "_head" ++ "_start") ("_head" ++ "_start") = true := by
-    have := hasSub_append p ("_head" ++ "_start") ""
-    simpa [String.append_assoc] using this
-  simp [this, removeSuffix_append]
+  rw [h1, h2, h3, if_pos hs, if_pos rfl, removeSuffix_append]
 
 /-- nothing but the override writes a key the herd loader would pick up, and the species table, the
     head-count columns and the slaughter columns fit together -/
